@@ -483,6 +483,112 @@ def gen_scipy():
     out.append('Definition scipy_ctor_stores_options : bool := %s.' % ('true' if all(stored.get('self.' + k) == k for k in ('fun', 'step', 'method', 'bounds', 'sparsity')) else 'false'))
     return '\n'.join(out) + '\n'
 
+def gen_limits():
+    """limits.py (C18): the decision logic of Limit._lim / _call_lim / Residue, CStepGenerator defaults and step count."""
+    out = ['(* ---- limits.py (C18) ---- *)']
+    lim = ast.parse(open(SRC + 'limits.py').read().replace('\r\n', '\n'))
+    L = get_class(lim, 'Limit'); R = get_class(lim, 'Residue'); B = get_class(lim, '_Limit'); C = get_class(lim, 'CStepGenerator')
+    lm = get_func(L, '_lim')
+    # sign = dict(forward=1, above=1, backward=-1, below=-1)[self.method]
+    dct = None
+    for n in ast.walk(lm):
+        if isinstance(n, ast.Assign) and ast.unparse(n.targets[0]) == 'sign' and isinstance(n.value, ast.Subscript) \
+           and isinstance(n.value.value, ast.Call) and getattr(n.value.value.func, 'id', '') == 'dict' and ast.unparse(n.value.slice) == 'self.method':
+            dct = []
+            for kw in n.value.value.keywords:
+                v = kw.value
+                if isinstance(v, ast.UnaryOp) and isinstance(v.op, ast.USub) and isinstance(v.operand, ast.Constant) and isinstance(v.operand.value, int): val = -v.operand.value
+                elif isinstance(v, ast.Constant) and isinstance(v.value, int): val = v.value
+                else: fail(v, 'Limit._lim: sign dictionary value is not an integer literal')
+                dct.append((kw.arg, val))
+    if dct is None: raise Unsupported('Limit._lim: `sign = dict(...)[self.method]` not found')
+    body = 'None'
+    for k, v in reversed(dct):
+        body = 'if String.eqb m "%s"%%string then Some (%d) else %s' % (k, v, body)
+    out.append('Definition lim_sign (m : string) : option Z := %s.' % body)
+    src = ast.unparse(lm)
+    out.append('Definition lim_steps_signed : bool := %s.' % ('true' if 'steps = [sign * step for step in self.step(z)]' in src else 'false'))
+    out.append('Definition lim_sequence_is_f_at_steps : bool := %s.' % ('true' if 'sequence = [f(z, h) for h in steps]' in src and 'results = self._vstack(sequence, steps)' in src
+               and 'lim_fz, info = self._extrapolate(*results)' in src and 'return (lim_fz, info)' in src else 'false'))
+    # self._set_richardson_rule(self.step.step_ratio, self.order + 1)  /  Richardson(step_ratio=step_ratio, step=1, order=1, num_terms=num_terms)
+    calls = _calls(lm, '_set_richardson_rule')
+    if len(calls) != 1 or len(calls[0].args) != 2: raise Unsupported('Limit._lim: expected exactly one call _set_richardson_rule(ratio, num_terms)')
+    out.append('Definition lim_rich_ratio_is_generator_ratio : bool := %s.' % ('true' if ast.unparse(calls[0].args[0]) == 'self.step.step_ratio' else 'false'))
+    tr = Tr({}, {}, {'order': ('v_order', 'Z')}, 'Limit')
+    out.append('Definition lim_rich_num_terms (v_order : Z) : Z := %s.' % tr.expr(calls[0].args[1], 'Z')[0])
+    sr = get_func(L, '_set_richardson_rule')
+    rc = [c for c in _calls(sr, 'Richardson')]
+    if len(rc) != 1: raise Unsupported('_set_richardson_rule: expected one Richardson(...) call')
+    kws = {kw.arg: ast.unparse(kw.value) for kw in rc[0].keywords}
+    if kws.get('step_ratio') != 'step_ratio' or kws.get('num_terms') != 'num_terms': raise Unsupported('_set_richardson_rule: step_ratio / num_terms not passed through: %r' % kws)
+    for k in ('step', 'order'):
+        try: v = int(kws[k])
+        except Exception: raise Unsupported('_set_richardson_rule: %s is not an integer literal: %r' % (k, kws.get(k)))
+        out.append('Definition lim_rich_%s : Z := %d.' % (k, v))
+    # evaluation: Limit._fun / Residue._fun
+    fsrc = ast.unparse(get_func(L, '_fun').body[-1])
+    out.append('Definition limit_evaluates_f_at_z_plus_dz : bool := %s.' % ('true' if fsrc == 'return self.fun(z + d_z, *args, **kwds)' else 'false'))
+    rf = get_func(R, '_fun').body[-1]
+    ok = isinstance(rf, ast.Return) and isinstance(rf.value, ast.BinOp) and isinstance(rf.value.op, ast.Mult) and ast.unparse(rf.value.left) == 'self.fun(z + d_z, *args, **kwds)' \
+        and isinstance(rf.value.right, ast.BinOp) and isinstance(rf.value.right.op, ast.Pow) and ast.unparse(rf.value.right.left) == 'd_z'
+    if not ok: raise Unsupported('Residue._fun: expected `return self.fun(z + d_z, *args, **kwds) * d_z ** <exponent>`, found `%s`' % ast.unparse(rf))
+    tr = Tr({}, {}, {'pole_order': ('v_pole_order', 'Z')}, 'Residue')
+    out.append('Definition residue_power (v_pole_order : Z) : Z := %s.' % tr.expr(rf.value.right.right, 'Z')[0])
+    rcall = ast.unparse(get_func(R, '__call__').body[-1])
+    out.append('Definition residue_call_is_limit : bool := %s.' % ('true' if rcall == 'return self.limit(x, *args, **kwds)' else 'false'))
+    lsrc = ast.unparse(get_func(L, 'limit'))
+    out.append('Definition limit_method_is_lim_at_x : bool := %s.' % ('true' if 'z = np.asarray(x)' in lsrc and 'f = partial(self._fun, args=args, kwds=kwds)' in lsrc and 'f_z, info = self._lim(f, z)' in lsrc else 'false'))
+    # __call__ / _call_lim: f(z, 0) first; only the NaN entries are replaced
+    csrc = ast.unparse(get_func(L, '__call__'))
+    out.append('Definition call_evaluates_f_at_zero_step : bool := %s.' % ('true' if 'f_z = f(z, 0)' in csrc and 'f_z, info = self._call_lim(f_z, z, f)' in csrc else 'false'))
+    cl = ast.unparse(get_func(L, '_call_lim'))
+    needles = ['err = np.zeros_like(f_z, dtype=float)', 'k = np.flatnonzero(np.isnan(f_z))', 'if k.size > 0:', 'lim_fz, info1 = self._lim(f, z.flat[k])',
+               'f_z = np.where(np.isnan(f_z), zero, f_z)', 'np.put(f_z, k, lim_fz)', 'np.put(err, k, info1.error_estimate)', 'np.put(final_step, k, info1.final_step)',
+               'return (f_z, self.info(err, final_step, index))']
+    missing = [n for n in needles if n not in cl]
+    out.append('Definition call_lim_replaces_nan_only : bool := %s.' % ('true' if not missing else 'false'))
+    # _extrapolate: Richardson, then dea3 on consecutive triples when more than two estimates, then the best estimate
+    ex = ast.unparse(get_func(B, '_extrapolate'))
+    wy = ast.unparse(get_func(B, '_wynn_extrapolate'))
+    ok = ('der1, errors1, steps = self.richardson(results, steps)' in ex and 'if len(der1) > 2:\n        der1, errors1, steps = self._wynn_extrapolate(der1, steps)' in ex
+          and 'der, info = self._get_best_estimate(der1, errors1, steps, shape)' in ex
+          and 'der, errors = dea3(der[0:-2], der[1:-1], der[2:], symmetric=False)' in wy and 'return (der, errors, steps[2:])' in wy)
+    out.append('Definition extrapolate_shape_ok : bool := %s.' % ('true' if ok else 'false'))
+    # CStepGenerator: defaults and number of steps
+    init = get_func(C, '__init__')
+    dflt = dict(zip([a.arg for a in init.args.args][-len(init.args.defaults):], [ast.unparse(d) for d in init.args.defaults]))
+    out.append('Definition cstep_defaults : list (string * string) := [%s]%%string.' % '; '.join('("%s", "%s")' % kv for kv in sorted(dflt.items())))
+    from fractions import Fraction
+    for k in ('step_ratio', 'scale'):
+        try: fr = Fraction(dflt[k])
+        except Exception: raise Unsupported('CStepGenerator.__init__: default %s is not a decimal literal' % k)
+        out.append('Definition cstep_default_%s : Q := (%d # %d).' % (k, fr.numerator, fr.denominator))
+    isrc = ast.unparse(init)
+    out.append('Definition cstep_default_path_radial : bool := %s.' % ('true' if "self.path = options.pop('path', 'radial')" in isrc else 'false'))
+    ns = get_func(C, 'num_steps')
+    ret = [n for n in ast.walk(ns) if isinstance(n, ast.Return) and isinstance(n.value, ast.BinOp)]
+    e = ret[0].value if len(ret) == 1 else None
+    # 2 * int(np.round(16.0 / np.log(np.abs(self.step_ratio)))) + 1
+    ok = (isinstance(e, ast.BinOp) and isinstance(e.op, ast.Add) and isinstance(e.right, ast.Constant) and isinstance(e.left, ast.BinOp) and isinstance(e.left.op, ast.Mult)
+          and isinstance(e.left.left, ast.Constant) and isinstance(e.left.right, ast.Call) and getattr(e.left.right.func, 'id', '') == 'int')
+    if ok:
+        inner = e.left.right.args[0]
+        ok = (isinstance(inner, ast.Call) and ast.unparse(inner.func) == 'np.round' and isinstance(inner.args[0], ast.BinOp) and isinstance(inner.args[0].op, ast.Div)
+              and isinstance(inner.args[0].left, ast.Constant) and ast.unparse(inner.args[0].right) == 'np.log(np.abs(self.step_ratio))')
+    if not ok: raise Unsupported('CStepGenerator.num_steps: expected a * int(np.round(b / np.log(np.abs(self.step_ratio)))) + c')
+    fr = Fraction(str(inner.args[0].left.value))
+    out.append('Definition cstep_num_steps_of_round (k : Z) : Z := %d * k + %d.' % (e.left.left.value, e.right.value))
+    out.append('Definition cstep_round_numerator : Q := (%d # %d).' % (fr.numerator, fr.denominator))
+    out.append('Definition cstep_user_num_steps_wins : bool := %s.' % ('true' if 'if self._num_steps is None:' in ast.unparse(ns) and 'return self._num_steps' in ast.unparse(ns) else 'false'))
+    srs = ast.unparse(get_func(C, 'step_ratio'))
+    out.append('Definition cstep_ratio_radial_real_spiral_rotated : bool := %s.' % ('true' if '_step_ratio = float(self._step_ratio)' in srs and 'if dtheta != 0:\n        _step_ratio = np.exp(1j * dtheta) * _step_ratio' in srs else 'false'))
+    dts = ast.unparse(get_func(C, 'dtheta'))
+    out.append('Definition cstep_dtheta_zero_on_radial : bool := %s.' % ('true' if "radial_path = self.path[0].lower() == 'r'" in dts and 'return 0 if radial_path else self._dtheta' in dts else 'false'))
+    # _Limit._step_generator: a scalar step is the base step with nominal step 1
+    sg = ast.unparse(get_func(B, '_step_generator'))
+    out.append('Definition limit_step_generator_ok : bool := %s.' % ('true' if 'step_nom = None if step is None else 1' in sg and 'return CStepGenerator(base_step=step, step_nom=step_nom, **options)' in sg else 'false'))
+    return '\n'.join(out) + '\n'
+
 def float_const_Q(node):
     """decimal literal -> exact rational text"""
     from fractions import Fraction
@@ -580,6 +686,11 @@ def main():
     out.append('Definition max_gen_num_extrap_default : Z := %s.\n' % dflt['num_extrap'])
     return '\n'.join(out)
 
+LIMITS_HEADER = """(* GENERATED by tools/ndt_translate.py from /repo/src/numdifftools -- do not edit *)
+From Coq Require Import ZArith QArith Bool List String.
+Import ListNotations.
+Open Scope Z_scope.
+"""
 GUARDS_HEADER = """(* GENERATED by tools/ndt_translate.py from /repo/src/numdifftools -- do not edit *)
 From Coq Require Import ZArith Bool List String.
 Import ListNotations.
@@ -587,7 +698,8 @@ Open Scope Z_scope.
 """
 def outputs():
     """file name (under coq/Gen) -> text.  Separate files so that a change in one area does not rebuild the others."""
-    return {'Spec.v': main(), 'Guards.v': GUARDS_HEADER + gen_guards(), 'Scipy.v': GUARDS_HEADER + gen_scipy()}
+    return {'Spec.v': main(), 'Guards.v': GUARDS_HEADER + gen_guards(), 'Scipy.v': GUARDS_HEADER + gen_scipy(),
+            'Limits.v': LIMITS_HEADER + gen_limits()}
 def write(out_dir=os.path.dirname(OUT)):
     changed = False
     os.makedirs(out_dir, exist_ok=True)
